@@ -118,7 +118,9 @@ def tag_of(p):
     d = p["desc"]
     if d.get("kind") == "publish":
         pl = d.get("payload", b"")
-        if len(pl) >= 2 and d.get("topic", b"").startswith(b"t/"):
+        # every PUBLISH the client sends is a user operation of the walk (payload = 2-byte index + filler); the topic
+        # may be absent (alias-only transmission) or, in some profiles, not of the form t/<n>
+        if len(pl) >= 2:
             return (pl[0] << 8) | pl[1]
     if d.get("kind") in ("subscribe", "unsubscribe"):
         fl = d.get("filter") or b""
@@ -432,7 +434,12 @@ def mon_C04(walk, d):
                             out.append(("retransmission-without-dup", f"operation {tag} retransmitted on a resumed session with DUP=0", p["first_step"]))
                         if p["pid"] != h["pid"]:
                             out.append(("retransmission-new-id", f"operation {tag} retransmitted with packet id {p['pid']} instead of {h['pid']}", p["first_step"]))
-                        if content != h["content"]:
+                        # application content: the payload, and the topic where both transmissions carry it (a topic
+                        # sent as an alias on one connection is spelled out on the next: aliases do not outlive a connection)
+                        same = content[1] == h["content"][1] and (not content[0] or not h["content"][0] or content[0] == h["content"][0])
+                        if content[0] and not h["content"][0]:
+                            h["content"] = content
+                        if not same:
                             out.append(("retransmission-content", f"operation {tag} retransmitted with different content", p["first_step"]))
                     else:
                         if dup:
